@@ -47,6 +47,7 @@ func automaton(tr []lab.Event, liveTrace bool) (viol []string, stats map[string]
 	logoutsThisPeriod := 0
 	engineLogoutSent := false
 	closed := false
+	logoutStep := -1 // lab step of the last logout notification
 	endConn := func(why string) {
 		if loggedOnPeriod {
 			viol = append(viol, fmt.Sprintf("no-logout-notification: the connection ended (%s) after a logon notification without a logout notification", why))
@@ -96,6 +97,7 @@ func automaton(tr []lab.Event, liveTrace bool) (viol []string, stats map[string]
 					viol = append(viol, "duplicate-logout-notification: a logged-on period received more than one logout notification")
 				}
 				loggedOnPeriod = false
+				logoutStep = e.Step
 			} else if everLogon {
 				viol = append(viol, "duplicate-logout-notification: a second logout notification for the same logged-on period")
 			}
@@ -122,7 +124,10 @@ func automaton(tr []lab.Event, liveTrace bool) (viol []string, stats map[string]
 					viol = append(viol, "app-before-logon: a first-time application frame was transmitted before the logon handshake completed: "+e.Msg)
 				} else if engineLogoutSent {
 					viol = append(viol, "app-after-logout: a first-time application frame was transmitted after the engine sent its Logout: "+e.Msg)
-				} else if !loggedOnPeriod && !liveTrace {
+				} else if !loggedOnPeriod && !liveTrace && e.Step > logoutStep {
+					// (the lab observes the frames of a step when the step is over, callbacks as they happen: a frame of
+					// the step in which the logout notification was given may have been handed to the connection before it;
+					// the order on the wire relative to the engine's Logout is judged above in any case)
 					viol = append(viol, "app-after-logout: a first-time application frame was transmitted after the logout notification: "+e.Msg)
 				}
 			}
@@ -190,6 +195,20 @@ func apply(l *lab.Lab, p *lab.Peer, sym string, k int) {
 		// property quantifies over connects, inbound messages, sends, timer events, stop requests and disconnects,
 		// and ResetSession is known (diagnostic, DESIGN §11.1) to send a Logout while leaving the session logged on.
 		l.Step("ResetSession (registry API)", func() { _ = quickfix.ResetSession(l.SID) })
+	case "store-yesterday":
+		// the store was created in the previous session-time range (only meaningful with a schedule configured):
+		// the next event of any kind makes the engine roll the session over (Logout, store reset, latent)
+		if l.Store != nil {
+			l.Step("the store's creation time is now a day old", func() { l.Store.FakeCreation = time.Now().Add(-24 * time.Hour) })
+		}
+	case "reset-fails":
+		if l.Store != nil {
+			l.Step("the next store resets fail", func() { l.Store.FailResets = 1 + k%3 })
+		}
+	case "tick":
+		l.CheckSessionTime(time.Now())
+	case "tick-outside":
+		l.CheckSessionTime(time.Now().Add(12 * time.Hour))
 	case "resendreq-in":
 		// (replays stay possible until the connection ends; nothing else may ride along with them)
 		l.In("ResendRequest", p.Msg("2", sn.NextTarget, nil, fixwire.Fields{lab.F(7, "1"), lab.F(16, "0")}))
@@ -232,7 +251,16 @@ func replaceField(raw []byte, tag int, val string) fixwire.Fields {
 }
 
 func sequence(c *core.Ctx, r *core.Result, stream string, idx int, syms []string, begin string, initiator bool, verbose bool) {
-	st := map[string]string{}
+	sequenceWith(c, r, stream, idx, syms, begin, initiator, verbose, map[string]string{})
+}
+
+// scheduleSettings: a daily session-time range of twelve hours around the present moment.
+func scheduleSettings() map[string]string {
+	now := time.Now().UTC()
+	return map[string]string{"StartTime": now.Add(-6 * time.Hour).Format("15:04:05"), "EndTime": now.Add(6 * time.Hour).Format("15:04:05")}
+}
+
+func sequenceWith(c *core.Ctx, r *core.Result, stream string, idx int, syms []string, begin string, initiator bool, verbose bool, st map[string]string) {
 	l, err := lab.New(lab.Config{Begin: begin, Initiator: initiator, Settings: st, Tag: "c08"})
 	if err != nil {
 		panic("harness: " + err.Error())
@@ -303,6 +331,28 @@ func randomSeq(rng *rand.Rand) []string {
 func runLab(c *core.Ctx, r *core.Result) {
 	core.Each(c, r, "random", c.N(20000, 800000), func(i int, rng *rand.Rand) {
 		sequence(c, r, "random", i, randomSeq(rng), core.Pick(rng, "FIX.4.0", "FIX.4.2", "FIX.4.4", "FIXT.1.1"), rng.Intn(2) == 0, false)
+	})
+	// session schedule: the session-time range is left or rolls over (store from the previous range) at any point of
+	// the sequence, with the store reset of the rollover failing or not
+	core.Each(c, r, "rollover", c.N(6000, 200000), func(i int, rng *rand.Rand) {
+		syms := randomSeq(rng)
+		extra := []string{"store-yesterday", "store-yesterday", "reset-fails", "tick", "tick", "tick-outside"}
+		for j := 2; j < len(syms); j++ {
+			if rng.Intn(5) == 0 {
+				syms[j] = extra[rng.Intn(len(extra))]
+			}
+		}
+		if rng.Intn(2) == 0 {
+			// the plain case: logged on, traffic, rollover, traffic
+			syms = append([]string{"connect", "logon", "send", "app-in"}, core.Pick(rng, "store-yesterday", "tick-outside"))
+			if rng.Intn(2) == 0 {
+				syms = append([]string{"reset-fails"}, syms...)
+			}
+			for j, n := 0, 2+rng.Intn(8); j < n; j++ {
+				syms = append(syms, core.Pick(rng, "tick", "send", "send", "app-in", "hb-in", "t-heartbeat", "t-peer", "t-logout", "connect", "logon", "close", "resendreq-in", "store-yesterday", "reset-fails"))
+			}
+		}
+		sequenceWith(c, r, "rollover", i, syms, core.Pick(rng, "FIX.4.2", "FIX.4.4", "FIXT.1.1"), rng.Intn(2) == 0, false, scheduleSettings())
 	})
 	// systematic: all sequences of length<=L over a 10-symbol alphabet from the latent state
 	alpha := []string{"connect", "logon", "app-in", "send", "logout-in", "t-peer", "app-in-high", "stop", "close", "logon-high"}
